@@ -6,7 +6,7 @@ V = os.path.dirname(os.path.dirname(os.path.abspath(__file__)))
 props = [json.loads(l) for l in open(V + '/properties.jsonl')]
 checks = json.load(open(V + '/scripts/checks.json'))
 kf = open(V + '/known_findings.txt').read().split('\n')
-rows = ['| id | registered | level | quick tier (last committed evidence) | fix commits | known findings | own mutants | seeded (caught/kept) |', '|---|---|---|---|---|---|---|---|']
+rows = ['| id | registered | level | quick tier (last committed evidence) | fix commits | known findings | own mutants | seeded: kept; final matrix caught/run |', '|---|---|---|---|---|---|---|---|']
 for p in props:
     i = p['id']
     ev = ''
@@ -17,13 +17,15 @@ for p in props:
         ev += f", exhaustive={str(c.get('exhaustive')).lower()}, {e['wall_s']:.0f} s ({e['tier']})"
     except Exception: pass
     seeds = sorted(glob.glob(f'{V}/seeded/{i}-*/'))
-    caught = 0
+    caught = run = 0
     for s in seeds:
-        try: caught += 1 if json.load(open(s + 'detection.json')).get('caught') else 0
+        try:
+            caught += 1 if json.load(open(s + 'detection.json')).get('caught') else 0
+            run += 1
         except Exception: pass
     rows.append(f"| {i} | {'yes' if i in checks else 'no'} | {checks.get(i, {}).get('level', '')} | {ev} | "
                 f"{sum(1 for l in kf if l.startswith(f'fixed: property={i} '))} | {sum(1 for l in kf if l.startswith(f'finding: property={i} '))} | "
-                f"{len(glob.glob(f'{V}/mutants/{i}/*.diff'))} | {caught}/{len(seeds)} |")
+                f"{len(glob.glob(f'{V}/mutants/{i}/*.diff'))} | {len(seeds)}; {caught}/{run} |")
 status = '\n'.join(rows)
 fixcount = subprocess.check_output(['git', '-C', '/repo', 'log', '--oneline', '--grep', '^fix:']).decode().count('\n')
 mutcount = len(glob.glob(V + '/mutants/*/*.diff'))
